@@ -12,15 +12,25 @@ fn run_case(case: &str) -> String
 	let addr = u32::from_str_radix(t[1], 16).unwrap();
 	let (i, _) = parse_instr(&t[2..]);
 	let text = match catch(move || format!("{}", i.at(addr))) { Ok(s) => s, Err(_) => return "panic-display".into() };
+	// where the label of a PC-relative text gets its value: S = before the statement; S1 = after it (the statement waits);
+	// S2 = after it and after another region has been selected (the statement is completed when its region is closed;
+	// the NOP behind it must stay intact)
 	let mut src = String::new();
-	if let Some(p) = text.find("l_")
+	let label = text.find("l_").map(|p| text[p..p + 10].to_string());
+	let def = label.as_ref().map(|name| format!(".const {}, 0x{};\n", name, &name[2..])).unwrap_or_default();
+	let far: u32 = if addr < 0x8000_0000 { 0xC000_0000 } else { 0x4000_0000 };
+	match t[0]
 	{
-		let name = &text[p..p + 10];
-		src.push_str(&format!(".const {}, 0x{};\n", name, &name[2..]));
+		"S1" => src.push_str(&format!(".addr 0x{:08X};\n{}\n{}", addr, text, def)),
+		"S2" => src.push_str(&format!(".addr 0x{:08X};\n{}\nNOP;\n.addr 0x{:08X};\n{}NOP;\n", addr, text, far, def)),
+		_ => src.push_str(&format!("{}.addr 0x{:08X};\n{}\n", def, addr, text)),
 	}
-	src.push_str(&format!(".addr 0x{:08X};\n{}\n", addr, text));
 	let r = run_pipeline(src.as_bytes(), "c19.asm");
-	let bytes = match r.regions.iter().find(|(a, _)| *a == addr) { Some((_, d)) => hex_bytes(d), None => "-".into() };
+	let bytes = match r.regions.iter().find(|(a, _)| *a == addr)
+	{
+		Some((_, d)) => if t[0] == "S2" && d.len() >= 2 && d[d.len() - 2..] == [0x00, 0xBF] { hex_bytes(&d[..d.len() - 2]) } else { hex_bytes(d) },
+		None => "-".into(),
+	};
 	format!("text={} | asm={} bytes={} diags={}", hex_bytes(text.as_bytes()), r.fmt_status(), bytes, r.fmt_diags())
 }
 
@@ -35,7 +45,9 @@ fn main()
 	};
 	let mut sh = Shard{k: 0, shard, n: nshards};
 	let mut rng = Rng::new(seed);
-	let mut emit = |addr: u32, i: &Instruction, out: &mut Out| { if sh.mine() { let c = format!("S {:x} {}", addr, fmt_instr(i)); let r = run_case(&c); out.line(&c, &r); } };
+	let sh = std::cell::RefCell::new(sh);
+	let emit_k = |kind: &str, addr: u32, i: &Instruction, out: &mut Out| { if sh.borrow_mut().mine() { let c = format!("{} {:x} {}", kind, addr, fmt_instr(i)); let r = run_case(&c); out.line(&c, &r); } };
+	let emit = |addr: u32, i: &Instruction, out: &mut Out| emit_k("S", addr, i, out);
 	let addrs: Vec<u32> = if thorough { vec![0x20000000, 0x20000002, 0, 2, 0x10000100, 0x1FFFFFFE, 0x7FFFFFF0, 0x7FFFFFFC, 0x80000000, 0x80000010, 0xFFFFFFF0, 0xFFFFFFFA, 0xFFFFFFFC, 0xFFFFFFFE] }
 		// (the two addresses around 2^31: a PC-relative target on the other side of the sign bit of an i32)
 		else { vec![0x20000000, 0x20000002, 0, 0x7FFFFFF0, 0x80000010, 0xFFFFFFF0, 0xFFFFFFFC] };
@@ -99,7 +111,7 @@ fn main()
 		if let Ok((2, i)) = Instruction::decode(&b)
 		{
 			let pcrel = matches!(i, Instruction::Adr{..} | Instruction::B{..} | Instruction::Ldr{addr: trion::arm6m::reg::Register::PC, ..});
-			if pcrel { for &a in &addrs { emit(a, &i, &mut out); } }
+			if pcrel { for &a in &addrs { emit(a, &i, &mut out); } for kind in ["S1", "S2"] { let a = addrs[(h as usize / 7) % addrs.len()]; if a < 0xFFFF_FFF0 { emit_k(kind, a, &i, &mut out); } } }
 			else { emit(addrs[(h as usize) % 2], &i, &mut out); if thorough { emit(addrs[2 + (h as usize) % 3], &i, &mut out); } }
 		}
 	}
@@ -119,4 +131,5 @@ fn main()
 	let nbl = if thorough { 200_000 } else { 4_000 };
 	for _ in 0..nbl { bl.push((rng.range(-8388608, 8388607) * 2) as i32); }
 	for &off in &bl { for &a in &addrs { emit(a, &Instruction::Bl{off}, &mut out); } }
+	for (k, &off) in bl.iter().enumerate() { if k % 8 == 0 { let a = addrs[k % addrs.len()]; if a < 0xFFFF_FFF0 { emit_k("S1", a, &Instruction::Bl{off}, &mut out); emit_k("S2", a, &Instruction::Bl{off}, &mut out); } } }
 }
